@@ -158,7 +158,7 @@ def run_mc_and_replay(ctx, queryset, maxrows_q, stride_q, maxrows_t, stride_t, n
         if rp.rowvals is None or rp.pending:
             raise MachineryError('row values were not emitted')
         if nonvac:
-            cfg3 = write_cfg(ctx, 'Tmp_MCSelNV_%s.cfg' % tag, 2, queryset, 'none', 1, variant=nonvac[0], props=False,
+            cfg3 = write_cfg(ctx, 'Tmp_MCSelNV_%s.cfg' % tag, 2, queryset, 'none', 3 if queryset == 'order' else 1, variant=nonvac[0], props=False,
                              invs=nonvac[2] if len(nonvac) > 2 else ALL_INVS)
             ctx.tlc('MC_Select', cfg3, leg='MC-nonvacuity', expect_violation=nonvac[1], workers=8)
     finally:
